@@ -19,6 +19,7 @@ CONSTANTS
   MaxBuilds = 3
   MaxExt = 2
   MaxCleans = 1
+  Verbose = TRUE
   AllowKeepMeta = TRUE
 INVARIANT NoViolation
 INVARIANT InvView
